@@ -62,7 +62,11 @@ pub trait ConnectionState {
     /// set the connection error and wake the connection
     fn set_conn_error_and_wake<T: Into<ErrorOrigin>>(&self, error: T) -> ErrorOrigin {
         let err = self.set_conn_error(error.into());
+        #[cfg(h3_verif)]
+        crate::verif::preempt("stream:after_store");
         self.waker().wake();
+        #[cfg(h3_verif)]
+        crate::verif::preempt("stream:after_wake");
         err
     }
 
